@@ -89,14 +89,20 @@ func classifyNumAtom(p *GoProg, a Atom) numCond {
 		}
 		return nc
 	}
-	// err == strconv.ErrRange style
+	// `err == strconv.ErrRange` is NOT a range test: strconv returns a *NumError wrapping ErrRange, so the comparison is
+	// never true (only errors.Is, or a comparison of the unwrapped (*NumError).Err, sees it). It is left unclassified:
+	// the integer attempt then counts as not tested for ErrRange.
 	if isStrconvErrRange(p, y) && (be.Op == token.EQL || be.Op == token.NEQ) {
-		if id, ok := x.(*ast.Ident); ok {
-			h := holds
-			if be.Op == token.NEQ {
-				h = !h
+		if sel, ok := x.(*ast.SelectorExpr); ok && sel.Sel.Name == "Err" {
+			if ta, ok := ast.Unparen(sel.X).(*ast.TypeAssertExpr); ok {
+				if id, ok := ast.Unparen(ta.X).(*ast.Ident); ok && strings.HasSuffix(p.Str(ta.Type), "strconv.NumError") {
+					h := holds
+					if be.Op == token.NEQ {
+						h = !h
+					}
+					return numCond{kind: "isrange", err: p.ObjOf(id), holds: h, src: nc.src}
+				}
 			}
-			return numCond{kind: "isrange", err: p.ObjOf(id), holds: h, src: nc.src}
 		}
 	}
 	// (subj & flag) op 0
